@@ -239,12 +239,49 @@ class BuildError(Exception):
     pass
 
 
+_LOOP_CACHE = {}
+
+
+def resolve_loops(gb, unwindset):
+    """Keys of the form `function@k` name the k-th loop of `function` in
+    TEXTUAL order (by source line); CBMC numbers loops by back-edge position,
+    which changes when code is edited.  Resolve them with --show-loops."""
+    if not any("@" in k for k in unwindset):
+        return dict(unwindset)
+    if gb not in _LOOP_CACHE:
+        out = subprocess.run(["cbmc", "--show-loops", gb], stdout=subprocess.PIPE,
+                             stderr=subprocess.DEVNULL).stdout.decode("utf-8", "replace")
+        loops = {}
+        cur = None
+        for l in out.splitlines():
+            m = re.match(r"^Loop (\S+)\.(\d+):", l)
+            if m:
+                cur = (m.group(1), int(m.group(2)))
+                continue
+            m = re.search(r"line (\d+) function (\S+)", l)
+            if m and cur:
+                loops.setdefault(cur[0], []).append((int(m.group(1)), cur[1]))
+                cur = None
+        _LOOP_CACHE[gb] = {f: [i for _, i in sorted(v)] for f, v in loops.items()}
+    table = _LOOP_CACHE[gb]
+    res = {}
+    for k, v in unwindset.items():
+        if "@" in k:
+            f, n = k.split("@")
+            ids = table.get(f, [])
+            if int(n) <= len(ids):
+                res["%s.%d" % (f, ids[int(n) - 1])] = v
+        else:
+            res[k] = v
+    return res
+
+
 def cbmc_cmd(job, gb, trace_prop=None):
     cmd = ["cbmc", NMF] + job.checks + job.extra_cbmc
     if job.unwind is not None:
         cmd += ["--unwind", str(job.unwind), "--unwinding-assertions"]
     if job.post_unwindset:
-        cmd += ["--unwindset", ",".join("%s:%d" % kv for kv in job.post_unwindset.items()),
+        cmd += ["--unwindset", ",".join("%s:%d" % kv for kv in resolve_loops(gb, job.post_unwindset).items()),
                 "--unwinding-assertions"]
     if job.object_bits:
         cmd += ["--object-bits", str(job.object_bits)]
@@ -336,6 +373,14 @@ def run_job(job, spec_blocks, keep=False, scratch_root=None):
             if any(o["status"] == "ERROR" for o in res.obligations):
                 res.undecided = "OUT-OF-MEMORY or solver error (limit %d GB): %s" % (
                     job.mem_gb, " ".join(l for l in msgs.splitlines() if "memory" in l.lower())[:200])
+                return res
+            unw = [o for o in res.obligations if o["status"] == "FAILURE" and re.search(r"\.unwind\.\d+$", o["name"])]
+            if unw:
+                # an unwinding bound was too small for the current code: nothing is decided
+                res.undecided = "UNWIND-BOUND: %s (%s)" % (unw[0]["name"], unw[0]["text"][:80])
+                for o in res.obligations:
+                    if not o["vacuity"] and o["status"] == "FAILURE":
+                        o["status"] = "UNDECIDED"
                 return res
             vac = [o for o in res.obligations if o["vacuity"]]
             res.vacuity_ok = bool(vac) and all(o["status"] == "FAILURE" for o in vac)
